@@ -34,6 +34,7 @@ func main() {
 	n := fs.Int("n", 100, "number of cases")
 	tier := fs.String("tier", "quick", "quick|thorough")
 	replay := fs.String("replay", "", "replay file")
+	mix := fs.String("mix", "c01", "generator mix of the scan ops")
 	_ = fs.Parse(os.Args[2:])
 	out = bufio.NewWriterSize(os.Stdout, 1<<20)
 	defer out.Flush()
@@ -43,6 +44,8 @@ func main() {
 		opAggregate(r, *n, *tier)
 	case "less3":
 		opLess3(r, *n, *tier)
+	case "scan":
+		opScan(r, *n, *tier, *mix)
 	case "replay":
 		opReplay()
 	default:
